@@ -13,6 +13,7 @@ sys.path.insert(0, os.path.join(VERIF, "tools"))
 
 REGISTRY = {
     "C02": ("raid", "C02"), "C03": ("raid", "C03"),
+    "C06": ("pbt", "c06"),
 }
 
 
@@ -39,6 +40,8 @@ def main():
     modname, arg = REGISTRY[pid]
     try:
         mod = importlib.import_module(modname)
+        if modname == "pbt":
+            return mod.main(arg, tier, seed, replay=replay)
         return mod.main(arg, tier, seed, replay=replay)
     except SystemExit as e:
         return e.code if isinstance(e.code, int) else 2
